@@ -19,6 +19,7 @@ C19 — line-protocol driver of the model (core only). State = the world (users,
                                                                  → 401 fx=0 | 403 fx=0 | az fx=0 | 404 fx=0 | 405 fx=0 | pass | pass x=<db acted on> | broken
 pairs = - | <k>:<v>(,<k>:<v>)*      alts = - | <hex of query text>=<stmts>(/<hex>=<stmts>)*
   mauth u=<s> p=<s> h=<hdr>       lib/httpserver.Authenticate (ts-meta / ts-store)      → deny <st> | inner | deny+inner <st>
+  mroute <METHOD> <path> u=<s> p=<s> h=<hdr>   the ts-meta HTTP handler              → 401 | reached | deny+reached | none
   setpw <name> <pw>               the catalogue's password of the user changes; the password cache is not cleaned → ok | nouser
   cauth <name> <pw>               Client.Authenticate with the password cache (stateful)  → ok | fail
   boot cfg=<…> <METHOD> <path> db=<s> dbx=<0|1> u=<s> p=<s> h=<hdr> q=<stmts>   a world without users → decision as for route
@@ -330,6 +331,12 @@ def stepS (s : St) (line : String) : St × String :=
     match parseReq w.sharedSecret u p h with
     | some r => (s, showPlain (authenticatePlain w r))
     | none => (s, "bad-op")
+  | ["mroute", method, path, u, p, h] =>
+    match unhex path, parseReq w.sharedSecret u p h with
+    | some path, some r =>
+      (s, match decideMeta w method path r with
+          | .d401 => "401" | .reached => "reached" | .reachedAfterDeny => "deny+reached" | .noRoute => "none")
+    | _, _ => (s, "bad-op")
   | ["boot", cfg, method, path, db, dbx, u, p, h, q] =>
     match (kv "cfg" cfg).bind parseCfg, unhex path, (kv "db" db).bind unhex, (kv "dbx" dbx).bind (fun x => x.toList.head?.bind bit),
           parseReq w.sharedSecret u p h, (kv "q" q).bind parseStmts with
